@@ -212,19 +212,26 @@ class Checker:
         """
         finfo = self.fileinfo
 
-        if "length" in self.info:
+        length = self.info.get("length")
+        if length is None and self.meta_version == 2:
+            tree = self.info["file tree"]
+            if list(tree) == [self.name] and "" in tree[self.name]:
+                if os.path.isfile(self.root):
+                    length = tree[self.name][""]["length"]
+
+        if length is not None:
             self.log_msg("%s points to a single file", self.root)
-            self.total = self.info["length"]
+            self.total = length
             self.paths.append(str(self.root))
 
             finfo[0] = {
                 "path": self.root,
-                "length": self.info["length"],
+                "length": length,
             }
 
             if self.meta_version > 1:
-                root = self.info["file tree"][self.name][""]["pieces root"]
-                finfo[0]["pieces root"] = root
+                leaf = self.info["file tree"][self.name][""]
+                finfo[0]["pieces root"] = leaf.get("pieces root")
 
             return
 
